@@ -106,7 +106,7 @@ PROPS["C11"] = {
     "explanation": "the real pkg/models tree code (CheckConsistency, DedupeItems, markCompleted, CompleteAndCheck, GetMaxDepth, GetNodesAtLevel, AddChild, RemoveChild) "
                    "is executed symbolically on trees whose SHAPE (children counts), STATUSES (8 values per node) and URL classes are solver variables; the model's own "
                    "CheckConsistency, executed symbolically, is the assumed invariant; reference predicates written in the harness are the oracle. One run covers every tree in the bound.",
-    "bounds": "trees up to 3 levels x 2 children (7 nodes) and 2 levels x 4 children; thorough adds 4 levels x 2 (15 nodes) for completion; 3 URL classes; one operation from an arbitrary consistent tree",
+    "bounds": "trees up to 3 levels x 2 children (7 nodes) and 2 levels x 4 children; thorough adds 4 levels with at most 2/2/1 children per level (11 nodes) for completion - 4 levels x 2 children (15 nodes) did not finish in 30 min and is not claimed; 3 URL classes; one operation from an arbitrary consistent tree",
     "outside": "larger trees; URL.String() canonicalisation (the cached string is set directly); concurrent mutation of one tree (the pipeline hands a seed to one goroutine at a time)",
     "assumptions": COMMON_ASSUME + ["item ids are distinct (uuid contract)", "append growth: capacity doubles (aliasing of re-sliced children arrays follows that policy)"],
     "harnesses": [
@@ -114,7 +114,7 @@ PROPS["C11"] = {
         {"pkg": MD, "func": "VerifH_C11_dedupe_anytree", "covers": ["dedupe-removed-a-node"]},
         {"pkg": MD, "func": "VerifH_C11_dedupe_wide", "covers": ["dedupe-removed-a-node"], "thorough_only": True, "opts": {"max_wall_s": 1500}},
         {"pkg": MD, "func": "VerifH_C11_complete_small", "covers": ["complete-true", "complete-false"]},
-        {"pkg": MD, "func": "VerifH_C11_complete_deep", "covers": ["complete-true", "complete-false"], "thorough_only": True, "opts": {"max_wall_s": 1800}},
+        {"pkg": MD, "func": "VerifH_C11_complete_deep", "covers": ["complete-true", "complete-false"], "thorough_only": True, "opts": {"max_wall_s": 3000}},
         {"pkg": MD, "func": "VerifH_C11_levels", "covers": ["three-levels"]},
         {"pkg": MD, "func": "VerifH_C11_addremove", "covers": ["added", "removed"]},
     ],
@@ -196,7 +196,7 @@ PROPS["C03"] = {
     "harnesses": [
         {"pkg": AR, "func": "VerifH_C03_archiver_startstop", "replay_tries": 2, "covers": ["proxy", "direct", "stopped"]},
         {"pkg": AR, "func": "VerifH_C03_archiver_workers", "replay_tries": 4, "covers": ["seed-in-flight", "stop-while-paused", "stopped"]},
-        {"pkg": "internal/pkg/postprocessor", "func": "VerifH_C03_postprocessor_stop", "replay_tries": 4, "covers": ["seed-in-flight", "stop-while-paused", "stopped"]},
+        {"pkg": "internal/pkg/postprocessor", "func": "VerifH_C03_postprocessor_stop", "replay_tries": 4, "covers": ["seed-in-flight", "outlinks-in-flight", "stop-while-paused", "stopped"]},
         {"pkg": "internal/pkg/preprocessor", "func": "VerifH_C03_preprocessor_stop", "replay_tries": 4, "covers": ["stop-while-paused", "stopped"]},
         {"pkg": "internal/pkg/finisher", "func": "VerifH_C14_finisher_workers", "replay_tries": 4, "covers": ["stop-while-paused", "stopped"]},
         {"pkg": RX, "func": "VerifH_C12_stop", "replay_tries": 10, "covers": ["stopped"]},
@@ -209,8 +209,8 @@ PROPS["C19"] = {
     "level": "model_checking",
     "explanation": "the extractors' own link-construction code (hasFileExtension, findURLs/GetURLsFromJSON split, M3U8 playlist walk, s3Legacy, s3V2) is executed from SSA on documents whose shape is chosen "
                    "symbolically (JSON value trees, playlists with nil slots, bucket pages with symbolic object sizes/truncation) and compared with reference rules written from the statement; net/url is executed from its real SSA.",
-    "bounds": "URL texts <=6 bytes over {a . / ? #}; JSON trees depth<=2 (quick) / 3 (thorough), width<=2, 5 leaf kinds incl. JSON-in-string; playlists <=3 segments / <=2 variants x <=2 alternatives; S3 pages <=2 objects (3 key shapes, symbolic sizes), <=2 common prefixes, truncation flag and token symbolic",
-    "outside": "JSON/XML/M3U8 tokenisation (encoding/json, encoding/xml, grafov/m3u8 are modelled as delivering the value the harness built; natively the replay goes through the real decoders); the XML/sitemap extractor; multi-page bucket walks",
+    "bounds": "URL texts <=6 bytes over {a . / ? #}; JSON trees depth<=2 (quick) / 3 (thorough; the outermost container of a depth-3 tree holds at most one value - full width 2 at depth 3 did not finish in 25 min and is not claimed), width<=2, 5 leaf kinds incl. JSON-in-string; XML documents of <=2 top-level nodes, each one of 6 leaf shapes (attribute, text, CDATA, escaped entity, two attributes, no URL) or a container of <=2 leaves; playlists <=3 segments / <=2 variants x <=2 alternatives; S3 pages <=2 objects (3 key shapes, symbolic sizes), <=2 common prefixes, truncation flag and token symbolic",
+    "outside": "JSON/M3U8 tokenisation (encoding/json and grafov/m3u8 are modelled as delivering the value the harness built; natively the replay goes through the real decoders; encoding/xml's tokenizer itself runs from SSA); URLs found in XML text by the xurls regular expression (text nodes that do not start with http, e.g. indented ones); multi-page bucket walks",
     "assumptions": COMMON_ASSUME + ["strings.Split/Trim/... are replaced by plain-Go models validated against the real functions on all strings <=5 over a 4-letter alphabet (verifmodel self-test)",
                                     "json.Decoder.Decode / json.Unmarshal / m3u8.DecodeFrom return the harness-built value (contract: total, no panic)"],
     "init_pkgs": DEFAULT_INIT + ["encoding/xml", "bufio", "bytes"],
@@ -230,8 +230,8 @@ PROPS["C10"] = {
     "level": "model_checking",
     "explanation": "Zeno's own string/shape handling of server-controlled input (Link header parser, attribute splitter, JSON-in-JSON sniffing, findURLs over arbitrary value shapes, file-extension rule, M3U8 walk with nil slots) "
                    "is executed from SSA on SYMBOLIC byte strings; every index, slice, type assertion and nil dereference on every path is a panic obligation, every loop carries an unwinding bound (a spin would exceed it).",
-    "bounds": "header/attribute/text strings up to 6-7 bytes over the delimiter alphabets the parsers look at; 6 JSON value shapes; playlists as in C19",
-    "outside": "panics or hangs INSIDE third-party decoders (x/net/html, encoding/json, encoding/xml, grafov/m3u8, pdfcpu, goada): those code bases are not encoded, the decoders are total stubs; HTML, XML, PDF, sitespecific extractors; URL normalisation; body processing",
+    "bounds": "header/attribute/text strings up to 6-7 bytes over the delimiter alphabets the parsers look at; 6 JSON value shapes; one XML document (sitemap with text, attribute, CDATA, comment) cut at every byte position; playlists as in C19",
+    "outside": "panics or hangs INSIDE third-party decoders (x/net/html, encoding/json, grafov/m3u8, pdfcpu, goada): those code bases are not encoded, the decoders are total stubs (encoding/xml's RawToken does run from SSA on the truncated documents); HTML, PDF, sitespecific extractors; URL normalisation; body processing",
     "assumptions": COMMON_ASSUME + ["library decoders return or fail (no panic) - the claim is about Zeno's code given such decoders",
                                     "strings.* models validated differentially (verifmodel self-test)"],
     "init_pkgs": DEFAULT_INIT + ["encoding/xml", "bufio", "bytes"],
@@ -261,6 +261,9 @@ PROPS["C15"] = {
     "harnesses": [
         {"pkg": HQ, "func": "VerifH_C15_hops_roundtrip", "covers": ["zero-hops", "some-hops"]},
         {"pkg": HQ, "func": "VerifH_C15_producer", "replay_tries": 2, "covers": ["hq-failed-first", "timer-flush", "outlink-arrives-during-retry", "stopped"]},
+        {"pkg": HQ, "func": "VerifH_C15_finisher", "replay_tries": 2, "replay_timeout_s": 40, "covers": ["hq-failed-first", "hq-unanswered", "timer-flush", "stopped"]},
+        {"pkg": HQ, "func": "VerifH_C15_finisher3", "thorough_only": True, "replay_tries": 2, "replay_timeout_s": 40, "opts": {"max_wall_s": 1800}, "covers": ["hq-failed-first", "hq-unanswered", "timer-flush", "stopped"]},
+        {"pkg": HQ, "func": "VerifH_C15_producer_timeout", "replay_tries": 1, "replay_timeout_s": 60, "covers": ["hq-failed-first", "timer-flush", "stopped"]},
     ],
 }
 
@@ -282,6 +285,9 @@ POSTPROC_MODELS.update({
     "(*github.com/gabriel-vasile/mimetype.MIME).String": VM + "MIMEString", "(*github.com/gabriel-vasile/mimetype.MIME).Is": VM + "MIMEIs",
     Z + "/pkg/models.URLToString": VM + "URLToString",
 })
+for _h in PROPS["C03"]["harnesses"]:
+    if _h["func"] == "VerifH_C03_postprocessor_stop":
+        _h["models"] = POSTPROC_MODELS  # the outlink-feeding scenario post-processes a page
 PROPS["C06"] = {
     "technique": 'symbolic execution of go/ssa with symbolic counters/limits (SMT) over enumerated tree positions and document kinds',
     "level": "model_checking",
@@ -417,7 +423,7 @@ PROPS["C01"] = {
     "stub_pkgs": DEFAULT_STUBS + [STATS],
     "harnesses": [
         {"pkg": "internal/verifpipe", "func": "VerifH_C01_one_seed", "replay_tries": 2, "opts": {"max_steps": 50000000, "unwind": 70000, "map_order_all": False, "no_preempt": True},
-         "covers": ["finished", "asset-fetched", "asset-of-asset", "redirect-followed", "always-failing", "outlink-produced", "asset-redirect-followed", "asset-redirects-out-of-scope"]},
+         "covers": ["finished", "asset-fetched", "asset-of-asset", "redirect-followed", "always-failing", "outlink-produced", "asset-redirect-followed", "asset-redirects-out-of-scope", "asset-fails-for-good", "asset-fails-once"]},
         {"pkg": "internal/verifpipe", "func": "VerifH_C01_one_seed_3assets", "replay_tries": 2, "thorough_only": True, "opts": {"max_steps": 50000000, "unwind": 70000, "map_order_all": False, "max_wall_s": 3000, "no_preempt": True},
          "covers": ["finished", "asset-fetched", "asset-of-asset"]},
     ],
